@@ -141,7 +141,7 @@ def run(rep: Report, tier: str) -> None:
         for kind in bounds:
             mine = [c for c in comps if c[2] == kind]
             if not mine:
-                rep.violation(ra, mod, qual, f"{qual}: {kind}-date bound enforced on the entry's calendar date", f"{qual} contains no comparison of an entry's timestamp.date() with the {kind}-date: the window is not applied here on the entry's own calendar date (entries outside the window would be processed, or the bound is applied to something else)", loc(fi.node))
+                missing_bound(rep, ra, m, fi, kind, f"{qual}: {kind}-date bound enforced on the entry's calendar date", "entries outside the window would be processed here, or the bound is applied to something other than the entry's own calendar date")
                 continue
             for c in mine:
                 _judge(rep, ra, m, fi, c)
@@ -349,3 +349,89 @@ def _judge(rep: Report, rule: str, m, fi, c) -> None:
     if not structure_ok:
         msg.append(f"the window comparison is combined with other conditions in {short(node, 100)} so that the bound is not applied to every entry")
     rep.check(ok_op and ok_date and structure_ok, rule, fi.module, fi.qualname, f"{fi.qualname}: {kind}-bound comparison {short(node, 70)}", "; ".join(msg), where, detail=f"excluded iff date {excl_op} {kind}_date")
+
+
+def missing_bound(rep: Report, rule: str, m, fi, kind: str, construct: str, consequence: str) -> None:
+    """A function that must enforce a window bound on the entry's own calendar date has no '<own date> REL <bound>' comparison.
+
+    Positively wrong shapes are violations: the bound does not occur in the function at all; the bound is turned into an instant
+    (datetime.combine(bound, ...)) and compared with timestamps; the bound is located by bisection with the wrong side
+    (bisect_left for the inclusive to-date, bisect_right for the inclusive from-date).  Any other way of using the bound is an
+    unknown idiom: the verdict is withheld (exit 2)."""
+    name = f"{kind}_date"
+    uses = [n for n in ast.walk(fi.node) if (isinstance(n, ast.Name) and n.id.lstrip("_") == name) or (isinstance(n, ast.Attribute) and n.attr.lstrip("_") == name)]
+    where = loc(fi.node)
+    derived = set()
+    if not uses and fi.cls is not None:
+        # the bound may be pre-digested elsewhere in the class: fields assigned from an expression that mentions the bound, helper methods that use it
+        def mentions(node: ast.AST) -> bool:
+            return any((isinstance(x, ast.Name) and x.id.lstrip("_") == name) or (isinstance(x, ast.Attribute) and x.attr.lstrip("_") == name) for x in ast.walk(node))
+
+        for other in fi.cls.methods.values():
+            for n in ast.walk(other.node):
+                if isinstance(n, (ast.Assign, ast.AnnAssign)) and n.value is not None and mentions(n.value):
+                    for t in n.targets if isinstance(n, ast.Assign) else [n.target]:
+                        if isinstance(t, ast.Attribute) and isinstance(t.value, ast.Name) and t.value.id == "self":
+                            derived.add(unparse(t))
+        helpers = [n for n in ast.walk(fi.node) if isinstance(n, ast.Call) and isinstance(n.func, ast.Attribute) and isinstance(n.func.value, ast.Name) and n.func.value.id == "self" and n.func.attr in fi.cls.methods and mentions(fi.cls.methods[n.func.attr].node)]
+        used_derived = [n for n in ast.walk(fi.node) if isinstance(n, ast.Attribute) and unparse(n) in derived]
+        if helpers and not used_derived:
+            raise AnalysisError(f"{where}: {fi.qualname} delegates the {kind}-date test to {[short(h, 40) for h in helpers][:2]}: helper-based window tests are not interpreted; cannot decide")
+        if used_derived:
+            uses = used_derived
+    if not uses:
+        rep.violation(rule, fi.module, fi.qualname, construct, f"{fi.qualname} does not use the {kind}-date at all (nor a field or helper of its class derived from it): {consequence}", where)
+        return
+    # bound converted to an instant and compared with timestamps
+    for n in ast.walk(fi.node):
+        if isinstance(n, (ast.Assign, ast.AnnAssign)) and n.value is not None and any(u in list(ast.walk(n.value)) for u in uses):
+            for t in n.targets if isinstance(n, ast.Assign) else [n.target]:
+                derived.add(unparse(t))
+    for n in ast.walk(fi.node):
+        if isinstance(n, ast.Compare):
+            sides = [n.left] + list(n.comparators)
+            txt = [unparse(x) for x in sides]
+            has_bound = any(t in derived or any(u in list(ast.walk(x)) for u in uses) for t, x in zip(txt, sides))
+            ts_side = [t for t in txt if "timestamp" in t and ".date()" not in t and t not in derived]
+            conv_side = [t for t in txt if "timestamp" in t and ".date()" in t and any(k in t for k in ("astimezone", "replace(", "utc"))]
+            if has_bound and (ts_side or conv_side):
+                rep.violation(rule, fi.module, fi.qualname, construct, f"{fi.qualname} enforces the {kind}-date by {short(n, 100)}: the bound is applied to an instant / a converted date, not to the entry's own timestamp.date(), so entries within their UTC offset of midnight on the boundary day fall on the wrong side: {consequence}", loc(n))
+                return
+    scopes = [fi.node] + ([o.node for o in fi.cls.methods.values() if o is not fi] if fi.cls is not None and derived else [])
+    for n in (x for sc in scopes for x in ast.walk(sc)):
+        if isinstance(n, ast.Call) and unparse(n.func).split(".")[-1] in ("bisect_left", "bisect_right", "bisect"):
+            mentions_bound = any((isinstance(x, ast.Name) and x.id.lstrip("_") == name) or (isinstance(x, ast.Attribute) and x.attr.lstrip("_") == name) for x in ast.walk(n))
+            if mentions_bound or any(u in list(ast.walk(n)) for u in uses) or any(unparse(a) in derived for a in n.args):
+                side = unparse(n.func).split(".")[-1]
+                wrong = (kind == "to" and side == "bisect_left") or (kind == "from" and side in ("bisect_right", "bisect"))
+                if wrong:
+                    rep.violation(rule, fi.module, fi.qualname, construct, f"{fi.qualname} locates the {kind}-date with {short(n, 80)}: both bounds are inclusive, so the to-date needs bisect_right and the from-date bisect_left; entries dated exactly on the {kind}-date are cut off: {consequence}", loc(n))
+                    return
+                # right side of the bisection: accepted when the bisected list is the list of the entries' own calendar dates
+                from ..loader import enclosing_function as _ef
+
+                arg0 = n.args[0] if n.args else None
+                fn = _ef(n)
+                src = arg0
+                if isinstance(arg0, ast.Name) and fn is not None:
+                    defs = [a for a in ast.walk(fn) if isinstance(a, (ast.Assign, ast.AnnAssign)) and a.value is not None and any(isinstance(t, ast.Name) and t.id == arg0.id for t in (a.targets if isinstance(a, ast.Assign) else [a.target]))]
+                    src = defs[0].value if len(defs) == 1 else None
+                if isinstance(src, ast.ListComp) and unparse(src.elt).endswith(".timestamp.date()") and "astimezone" not in unparse(src.elt):
+                    rep.ok(rule, f"{construct} (bisection over the entries' own dates, {side})", short(n, 80))
+                    return
+    rep.defer_error(f"{where}: {fi.qualname} uses the {kind}-date ({[short(u, 30) for u in uses][:3]}) but not in a comparison with an entry's timestamp.date(), nor in a shape known to be wrong: cannot decide whether the window is applied on the entry's own calendar date")
+    return
+
+
+def check_iterator_window(rep: Report, rule: str, m, consequence: str) -> None:
+    """Shared obligation: the entry-set iterator (the only producer of the filtered views every consumer iterates) applies both window
+    bounds inclusively on the entry's own calendar date."""
+    it = m.prog.func("rp2.abstract_entry_set", "EntrySetIterator.__next__")
+    rep.analysed(it)
+    comps = _window_comparisons(m, it)
+    for kind in ("to", "from"):
+        mine = [c for c in comps if c[2] == kind]
+        if not mine:
+            missing_bound(rep, rule, m, it, kind, f"iterator enforces the {kind}-date on the entry's calendar date", consequence)
+        for c in mine:
+            _judge(rep, rule, m, it, c)
